@@ -256,7 +256,7 @@ def strip_fragment(t):
     return t if i < 0 else t[:i]
 
 
-def ref_rewrite(ridx, templates, table, target, cond, scheme, authority, port, limit=100, gate=None, state=None):
+def ref_rewrite(ridx, templates, table, target, cond, scheme, authority, port, limit=100, gate=None):
     """rewrite-once rules (index < ridx) are applied once, rewrite-repeat rules again and again until no
     rule matches; more than `limit` re-dispatches is an error.  -> ('served', target, n) | ('failed', n).
     `gate(target)` (the -if-not-file directives): the rules are not consulted for a target whose physical
@@ -1583,12 +1583,16 @@ def run(ctx):
                 "over an 11-symbol alphabet x 21 flag sets, random strings; templates: every placeholder x every "
                 "modifier and (case, encoder) pair, random well-formed and mangled templates, all templates up to a "
                 "bounded length over the template metacharacters; rule lists over a regex subset with real PCRE2; "
-                "rewrite chains / loops around the loop limit; alias tables; host names x evhost patterns; distinct = "
+                "rewrite chains / loops around the loop limit; the -if-not-file gate over every filesystem kind "
+                "(regular, directory +/- slash, missing, symlinks, below-a-file, fifo); end-to-end every rewrite "
+                "directive kind and redirect x every filesystem kind; alias tables; host names x evhost patterns; distinct = "
                 "(operation, feature/flag class, outcome class) tuples observed")
     ctx.assumptions += ["templates, subjects and URL parts are NUL-free C strings",
                         "PCRE2's match results are inputs of the model (recorded from and re-verified against the real "
                         "library on every case)",
                         "the vhost modules' stat() of the composed directory is outside the model",
+                        "mod_rewrite_physical's stat() result is a parameter of the model (kind of the physical path); "
+                        "the harness and the end-to-end stream use the real filesystem (stat follows symbolic links)",
                         "after a rewrite the enclosing condition's captures (%N) are kept (in the server the "
                         "conditions are re-evaluated against the rewritten URL)"]
 
